@@ -24,7 +24,7 @@ from pedal.sandbox import mocked
 from pedal.sandbox.constants import TOOL_NAME
 from pedal.sandbox.feedbacks import runtime_error, EXCEPTION_FF_MAP
 from pedal.sandbox.exceptions import SandboxHasNoFunction, SandboxHasNoVariable
-from pedal.sandbox.timeout import timeout
+from pedal.sandbox.timeout import timeout, InterruptableThread
 from pedal.sandbox.timeout import _verif_sync
 from pedal.sandbox.result import SandboxResult
 from pedal.sandbox.tracer import TRACER_STYLES
@@ -127,7 +127,10 @@ class Sandbox:
         Returns:
 
         """
-        if threaded:
+        # Inside a time-limited execution the import runs in that same thread,
+        # under the same limit (a nested timeout thread was never stopped when
+        # the outer one ran out first)
+        if threaded and not isinstance(threading.current_thread(), InterruptableThread):
             return timeout(self.allowed_time, self._import, code, module_name, filename, False, **meta)
         # TODO: Skulpt doesn't support `module.__dict__` manipulation,
         #   but once it does we don't need to manually copy over the attrs afterwards
